@@ -35,7 +35,7 @@ func H_C19_route(tbl, router int) {
 	o1 := h.run(c, q)
 	verifFrameEnd()
 	verifAssert(verifFingerprint(c) == fp1, "native: C19: serving a request changed configuration state")
-	verifAssert(verifLocksFree(), "C19: a lock is still held after the request")
+	verifAssert(vContainerLocksFree(c), "C19: a lock is still held after the request")
 	if o1.invoked >= 0 {
 		verifCover("invoked")
 		verifObserveInt("route", o1.invoked)
